@@ -16,11 +16,15 @@ CFG = {
             "end); requests: exactly one coordinate off POST hysteria /auth (method in POST GET PUT post DELETE; authority in hysteria "
             "Hysteria hysteria:443 hysteria. other.example HYSTERIA hysteria.example xhysteria; path in /auth /auth/ /AUTH //auth /auth?x=1 "
             "/ /%61uth /auth%2f /authx /index.html /auth? /auth/x), arbitrary triples, the exact shape with rejected / accepted / "
-            "absent credentials, each with every subset of Hysteria-Auth / Hysteria-CC-RX / Hysteria-Padding; MasqHandler nil, a logging "
+            "absent credentials, each with every subset of Hysteria-Auth / Hysteria-CC-RX / Hysteria-Padding, about every fourth request with a LARGE extra header set "
+            "(3 KiB, 4.2 KiB, 5 KB, 6 KiB, 20 KiB, 100 KiB in one header; 40x120 B and 160x110 B in many); MasqHandler nil, a logging "
             "404 wrapper, or a custom handler whose status/headers/body depend on the request; non-trivial = request or stream ops",
     "trusted_base": [
         "net/http + quic-go/http3 request parsing: the (Method, Host, URL.Path) the handler receives is an INPUT of the model (taken from "
         "what the masquerade handler logged, else from url.ParseRequestURI of what the raw client sent)",
+        "net/http + quic-go/http3 deliver every request whose header section is below the library's limit (1 MiB: no MaxHeaderBytes is "
+        "configured, Gen fact h3ServerFields) to ServeHTTP - an assumption tied by the `masq` stream, which sends header sets of 3 KiB .. "
+        "100 KiB (one large Cookie / X-* header, or 40 / 160 small ones) on every request shape with the default and the custom handler",
         "the model Hy.Model.Masq.serve is tied to h3sHandler.ServeHTTP by the differential stream `masq` (whole response: status, "
         "headers minus Date/Content-Length, body; whether the authenticator was consulted), by go/ast facts (every use of the "
         "ResponseWriter other than the masquerade call sits under the authenticated / ok branch; the shape condition) and by constants",
